@@ -336,3 +336,47 @@ func VerifH_C09_best() {
 	verifReach("chosen")
 	verifAssert(err == nil && s.Lookup(rune('A'+first)) == glyph.ID(first+1), "best subtable is the first present candidate")
 }
+
+// VerifH_C09_f4blocks: maps whose cheapest encoding needs several glyphIdArray segments: two blocks of scattered
+// codes (concrete keys, symbolic unrelated glyph ids) separated by a gap.
+func VerifH_C09_f4blocks() {
+	m := Format4{}
+	base := []uint16{0xFF00, 0xFF40}
+	if verifParam("lowwindow", 0) != 0 {
+		base = []uint16{0x0020, 0x0060}
+	}
+	var gids []glyph.ID
+	for _, b := range base {
+		for i := uint16(0); i < 4; i++ {
+			g := glyph.ID(verifU16("gid"))
+			verifAssume(g != 0)
+			// scattered: consecutive codes do not map to consecutive glyphs (no delta segment can cover two of them)
+			if len(gids)%4 != 0 {
+				verifAssume(g != gids[len(gids)-1]+1)
+			}
+			gids = append(gids, g)
+			m[b+i] = g
+		}
+	}
+	verifUnwind(70000)
+	enc := m.Encode(0)
+	sc := int(w16(enc, 6)) / 2
+	arraySegs := 0
+	for k := 0; k < sc; k++ {
+		if w16(enc, 16+2*sc+2*(2*sc)+2*k) != 0 {
+			arraySegs++
+		}
+	}
+	if arraySegs >= 2 {
+		verifReach("two glyphIdArray segments")
+	}
+	c := verifU16("c")
+	want := m[c]
+	rg, defined := refF4(enc, c)
+	verifAssert(defined && rg == want, "specification lookup of the encoded table gives m[c]")
+	s, err := decodeFormat4(enc, nil)
+	verifAssert(err == nil, "own encoding accepted")
+	if err == nil {
+		verifAssert(s.Lookup(rune(c)) == want, "decode(encode(m)) gives m[c]")
+	}
+}
